@@ -142,7 +142,7 @@ def fe_value(it, p, off, cell, weights):
 def heap_straus(rep, cfg, path, n):
     """constant-time Straus: at every dealloc no freed cell may hold a digit of a secret scalar"""
     t0 = time.time()
-    rec = dict(harness="%s/heap Straus::multiscalar_mul n=%d" % (cfg, n), config=cfg, function="serial::scalar_mul::straus::Straus::multiscalar_mul", goals=[],
+    rec = dict(harness="%s/heap EdwardsPoint::multiscalar_mul n=%d" % (cfg, n), config=cfg, function="EdwardsPoint::multiscalar_mul -> serial::scalar_mul::straus::Straus::multiscalar_mul", goals=[],
                bounds="n = %d points, all digits of all scalars symbolic" % n)
     try:
         it = gsym.GSym(module(path))
@@ -158,7 +158,7 @@ def heap_straus(rep, cfg, path, n):
             so = gsym.ScalarObj("s%d" % i)
             for k in range(32): it.regions[sc.r].b[32 * i + k] = (so, k, 32)
             it.put(Ptr(pts.r, 4 * it.fs * i), gsym.G.base("P%d" % i), 4 * it.fs)
-        it.call("vp_g_straus_ct_%d" % n, [out, sc, pts])
+        it.call("vp_g_multiscalar_mul", [out, sc, Poly.const(n), pts, Poly.const(n)])
         nd = [f for f in freed if f[3] == "digits"]
         rec["goals"].append(dict(goal="the digit buffer is freed (a heap block that held only scalar digits)", verdict="unsat" if nd else "sat", solver_s=0.0, cases=1, solver_calls=0, kind="structural"))
         for r, size, dirty, kind in freed:
@@ -265,10 +265,10 @@ def run(tier, seed):
     tasks.append(lambda: zeroize_harness(rep, cfg, cp, "vp_z_projective_niels", "ProjectiveNielsPoint (backend-internal cached form: erased, all-zero)", 160, zero(160)))
     tasks.append(lambda: zeroize_harness(rep, cfg, cp, "vp_z_affine_niels", "AffineNielsPoint (backend-internal cached form: erased, all-zero)", 120, zero(120)))
     tasks.append(lambda: zeroize_harness(rep, cfg, cp, "vp_z_fe", "FieldElement", 40, zero(40)))
-    for n in (1, 2):
+    for n in ((1, 2, 190) if tier == "quick" else (1, 2, 3, 8, 190, 500, 800)):
         tasks.append(lambda n=n: heap_straus(rep, cfg, cp, n))
     from checks.c02 import SC
-    for n in ((1, 2, 3) if tier == "quick" else (1, 2, 3, 4, 6)):
+    for n in ((1, 2, 3, 5) if tier == "quick" else (1, 2, 3, 4, 5, 6, 9)):
         tasks.append(lambda n=n: heap_batch_invert(rep, cfg, cp, n, SC[cfg]))
     run_tasks(tasks, rep)
     rep.level = "model_checking"
